@@ -218,8 +218,14 @@ class OrderedMultiDict(dict, MutableMappingSequence):
         return "{!s}([\n{!s}\n])".format(type(self).__name__, "\n".join(lines))
 
     get = abc.MutableMapping.get
-    update = abc.MutableMapping.update
     setdefault = abc.MutableMapping.setdefault
+
+    def update(self, *args, **kwargs):
+        # Iterating an OrderedMultiDict yields (key, value) pairs, not
+        # keys, so hand the Mapping mix-in its items instead.
+        if args and isinstance(args[0], OrderedMultiDict):
+            args = (list(args[0].items()),) + tuple(args[1:])
+        return abc.MutableMapping.update(self, *args, **kwargs)
 
     def keys(self):
         return KeysView(self)
